@@ -1,4 +1,5 @@
 import Pyunicorn.Lemmas.Recurrence
+import Pyunicorn.Lemmas.RecurrenceReal
 import Pyunicorn.Model.RecurrenceObjects
 /-!
 # C07 — recurrence matrices are exactly the thresholded distance matrices
@@ -478,5 +479,110 @@ theorem adaptive_row_has_k (n kA : Nat) (sn : List (List Nat)) (order : List Nat
 example : (match adaptive 3 1 [[0, 1, 2], [1, 0, 2], [2, 1, 0]] [0, 1, 2] with
     | some R => bmTab 3 R | none => []) = [[false, true, true], [true, false, true], [true, true, false]] := by
   decide
+
+
+/-! ### the kernels compute the metrics -/
+
+def absQ (x y : Rat) : Rat := if x ≤ y then y - x else x - y
+
+/-- the three metrics by definition (Euclidean: the sum of squares under the root) -/
+def metricQ : Metric → List Rat → List Rat → Rat
+  | .manhattan, a, b => (List.zipWith absQ a b).sum
+  | .euclidean, a, b => ((List.zipWith absQ a b).map fun d => d * d).sum
+  | .supremum, a, b => (List.zipWith absQ a b).foldl max 0
+
+private theorem zipWith_absdiff_some (a b : List Rat) :
+    List.zipWith absdiff (a.map some) (b.map some) = (List.zipWith absQ a b).map some := by
+  induction a generalizing b with
+  | nil => simp
+  | cons x xs ih =>
+    cases b with
+    | nil => simp
+    | cons y ys => simp [absdiff, absQ, ih]
+
+/-- **kernels = metric definitions** on complete (NaN-free) state vectors -/
+theorem dist_complete (m : Metric) (a b : List Rat) :
+    dist m (a.map some) (b.map some) = some (metricQ m a b) := by
+  unfold dist
+  rw [zipWith_absdiff_some]
+  cases m with
+  | manhattan =>
+    simp only [metricQ]
+    generalize List.zipWith absQ a b = ds
+    have : ∀ (acc : Rat), (ds.map some).foldl (fun acc t => addV acc t) (some acc)
+        = some (acc + ds.sum) := by
+      induction ds with
+      | nil => intro acc; simp
+      | cons d ds ih =>
+        intro acc
+        simp only [List.map_cons, List.foldl_cons, List.sum_cons]
+        rw [show addV (some acc) (some d) = some (acc + d) from rfl, ih, Rat.add_assoc]
+    have h0 := this 0
+    rw [Rat.zero_add] at h0
+    exact h0
+  | euclidean =>
+    simp only [metricQ]
+    generalize List.zipWith absQ a b = ds
+    have : ∀ (acc : Rat), (ds.map some).foldl (fun acc t => addV acc (mulV t t)) (some acc)
+        = some (acc + (ds.map fun d => d * d).sum) := by
+      induction ds with
+      | nil => intro acc; simp
+      | cons d ds ih =>
+        intro acc
+        simp only [List.map_cons, List.foldl_cons, List.sum_cons]
+        rw [show addV (some acc) (mulV (some d) (some d)) = some (acc + d * d) from rfl, ih,
+          Rat.add_assoc]
+    have h0 := this 0
+    rw [Rat.zero_add] at h0
+    exact h0
+  | supremum =>
+    simp only [metricQ]
+    generalize List.zipWith absQ a b = ds
+    have : ∀ (acc : Rat), (ds.map some).foldl (fun acc t => if gtV t acc then t else acc) (some acc)
+        = some (ds.foldl max acc) := by
+      induction ds with
+      | nil => intro acc; simp
+      | cons d ds ih =>
+        intro acc
+        simp only [List.map_cons, List.foldl_cons]
+        by_cases h : acc < d
+        · have hm : max acc d = d := by grind
+          rw [show gtV (some d) (some acc) = decide (acc < d) from rfl]
+          simp only [h, decide_true, if_true, hm]
+          exact ih d
+        · have hm : max acc d = acc := by grind
+          rw [show gtV (some d) (some acc) = decide (acc < d) from rfl]
+          simp only [h, decide_false, hm]
+          exact ih acc
+    exact this 0
+
+/-- a missing value makes the Manhattan and Euclidean distances NaN, which is never
+below a threshold; the supremum kernel skips the component (IEEE comparison) — this
+is why `missing_values=True` masks rows and columns explicitly -/
+example : dist .manhattan [none, some 1] [some 0, some 1] = none
+    ∧ dist .euclidean [none, some 1] [some 0, some 1] = none
+    ∧ dist .supremum [none, some 1] [some 0, some 1] = some 0 := by decide +kernel
+
+/-- **Euclidean threshold**: comparing the sum of squares with `unitThr` is comparing
+its square root with `ε` (over ℝ) -/
+theorem euclid_lt_iff_sqrt_lt (a b : List Rat) (eps : Rat) :
+    ltV (dist .euclidean (a.map some) (b.map some)) (some (unitThr .euclidean eps)) = true
+      ↔ Real.sqrt ((metricQ .euclidean a b : Rat) : ℝ) < (eps : ℝ) := by
+  rw [dist_complete]
+  have hs : 0 ≤ metricQ .euclidean a b := by
+    have key : ∀ ds : List Rat, 0 ≤ (ds.map fun d => d * d).sum := by
+      intro ds
+      induction ds with
+      | nil => simp
+      | cons d ds ih =>
+        simp only [List.map_cons, List.sum_cons]
+        have := mul_self_nonneg d
+        linarith
+    exact key _
+  rw [sqrt_lt_iff_unitThr _ _ hs]
+  simp [ltV]
+
+example : metricQ .euclidean [0, 3] [4, 0] = 25 ∧ metricQ .manhattan [0, 3] [4, 0] = 7
+    ∧ metricQ .supremum [0, 3] [4, 0] = 4 := by decide +kernel
 
 end Pyunicorn.Recurrence
